@@ -36,7 +36,7 @@ func init() {
 		Explanation: "(R1) in keyedWritePublication the tracked-key test, the version monotonicity re-check (pubVersion <= keyState.version → drop), the enqueue and the version/deltaReady stores are in one c.mu critical section, and the stores happen only after a successful enqueue; " +
 			"(R2) = C14.R3; (R3) keyed cleanup paths remove the subscriber registration while holding c.mu; (R4) a publisher epoch flip ends current subscriptions with insufficient state.",
 		NotDecided: "eventual delivery of the newest version; version arithmetic of the refresh worker; timing.",
-		Rules: map[string]string{"C25.R1": "K3+K2: atomic check-enqueue-record", "C25.R3": "K3: cleanup under c.mu", "C25.R4": "K2: epoch flip → Unsubscribe(insufficient state)"},
+		Rules: map[string]string{"C25.R1": "K3+K2: atomic check-enqueue-record", "C25.R3": "K3: cleanup under c.mu", "C25.R4": "K2: epoch flip → Unsubscribe(insufficient state)", "C25.R5": "value flow: a tracked entry's version moves only to a compared-newer value or to the channel-scope monotone counter"},
 		Run: runC25,
 	})
 }
@@ -535,13 +535,153 @@ func runC25(c *Ctx) {
 		okU := false
 		for _, f := range WithClosures(fn) {
 			for _, u := range CallsIn(f, false, w.calleeIs("Client.Unsubscribe")) {
-				if strings.Contains(D(u.Common().Args[len(u.Common().Args)-1]), "unsubscribeInsufficientState") || strings.Contains(fmt.Sprint(D(u.Common().Args[2])), "unsubscribeInsufficientState") {
-					okU = true
+				for _, a := range u.Common().Args {
+					if strings.Contains(D(a), "unsubscribeInsufficientState") {
+						okU = true
+					}
 				}
-				_ = u
-				okU = true
 			}
 		}
 		c.CheckAt("C25.R4", FuncName(fn)+": epoch flip unsubscribes the collected clients", w.Pos(fn.Pos()), okU, "a publisher epoch change must end current subscriptions with insufficient state")
 	}
+	runC25Versions(c)
+}
+
+// runC25Versions (C25.R5): the version recorded in a tracked entry is either strictly newer than the
+// entry's current one by an explicit comparison, a reset to zero, or taken from a counter whose
+// scope is the channel state (the epoch's lifetime) and which only ever increases. A version derived
+// from the entry's own previous version restarts when the entry is deleted and re-created under the
+// same epoch, so a connection that kept its last version for the key drops the new pushes.
+func runC25Versions(c *Ctx) {
+	w := c.W
+	n := 0
+	for _, f := range w.AllFuncs {
+		if !w.inModule(f) || strings.HasSuffix(w.Pos(f.Pos()), "_test.go") {
+			continue
+		}
+		for _, st := range storesToField(f, false, "sharedPollTrackedEntry", "version") {
+			n++
+			if v, ok := constIntOf(st.Val); ok && v == 0 {
+				c.Check("C25.R5", st, "tracked entry version reset to zero", true, "")
+				continue
+			}
+			entryObj := st.Addr.(*ssa.FieldAddr).X
+			fromOwn := derivesFromField(st.Val, "sharedPollTrackedEntry", "version", 0, map[ssa.Value]bool{})
+			newer := Guarded(st, func(g Guard) bool {
+				b, ok := g.Cond.(*ssa.BinOp)
+				if !ok {
+					return false
+				}
+				x, y := D(b.X), D(b.Y)
+				ownV := func(v ssa.Value) bool {
+					u, ok := v.(*ssa.UnOp)
+					if !ok || u.Op != token.MUL {
+						return false
+					}
+					fa, ok := u.X.(*ssa.FieldAddr)
+					return ok && fieldAddrIs(fa, "sharedPollTrackedEntry", "version") && D(fa.X) == D(entryObj)
+				}
+				val := D(st.Val)
+				switch {
+				case b.Op == token.LEQ && x == val && ownV(b.Y) && !g.Pol, // !(v <= entry.version)
+					b.Op == token.GTR && x == val && ownV(b.Y) && g.Pol, // v > entry.version
+					b.Op == token.LSS && ownV(b.X) && y == val && g.Pol, // entry.version < v
+					b.Op == token.GEQ && ownV(b.X) && y == val && !g.Pol: // !(entry.version >= v)
+					return true
+				}
+				return false
+			})
+			counter := false
+			if _, _, ok := counterSource(st.Val); ok {
+				counter = true
+			}
+			if u, ok := st.Val.(*ssa.UnOp); ok && u.Op == token.MUL {
+				// a load of a channel-state field (the counter just incremented)
+				if fa, ok := u.X.(*ssa.FieldAddr); ok {
+					if typ, _, ok := FieldOf(fa); ok && typ == "sharedPollChannelState" {
+						counter = true
+					}
+				}
+			}
+			_ = entryObj
+			ok := !fromOwn && (newer || counter)
+			detail := "value " + D(st.Val)
+			if fromOwn {
+				detail += " is computed from the entry's own version: it restarts when the entry is deleted and re-created within one channel epoch, and connections that kept their last version for the key drop every push until the counter catches up"
+			} else if !newer && !counter {
+				detail += " is neither compared as strictly newer than the entry's version nor taken from the channel-scope counter; guards: " + strings.Join(GuardStrings(st), " && ")
+			}
+			c.Check("C25.R5", st, "tracked entry version only moves to a strictly newer value of channel-epoch scope", ok, detail)
+		}
+	}
+	c.Anchor("C25.R5", "stores to sharedPollTrackedEntry.version", n >= 3)
+	// the channel-scope counter only increases
+	k := 0
+	for _, f := range w.AllFuncs {
+		if !w.inModule(f) || strings.HasSuffix(w.Pos(f.Pos()), "_test.go") {
+			continue
+		}
+		for _, st := range storesToField(f, false, "sharedPollChannelState", "versionCounter") {
+			k++
+			_, _, ok := counterSource(st.Val)
+			c.Check("C25.R5", st, "synthetic version counter only increases", ok, "value "+D(st.Val)+": a reset or a decrease hands out a version some connection already holds")
+		}
+	}
+	c.Anchor("C25.R5", "synthetic version counter increments (versionless mode)", k >= 1)
+}
+
+// counterSource: v is load(T.f) + positive constant for a struct field of sharedPollChannelState.
+func counterSource(v ssa.Value) (string, string, bool) {
+	b, ok := v.(*ssa.BinOp)
+	if !ok || b.Op != token.ADD {
+		return "", "", false
+	}
+	k, isC := constIntOf(b.Y)
+	if !isC || k <= 0 {
+		return "", "", false
+	}
+	u, ok := b.X.(*ssa.UnOp)
+	if !ok || u.Op != token.MUL {
+		return "", "", false
+	}
+	fa, ok := u.X.(*ssa.FieldAddr)
+	if !ok {
+		return "", "", false
+	}
+	typ, fld, ok := FieldOf(fa)
+	if !ok || typ != "sharedPollChannelState" {
+		return "", "", false
+	}
+	return typ, fld, true
+}
+
+// derivesFromField: v is computed (arithmetic, phis, conversions) from a load of typ.field.
+func derivesFromField(v ssa.Value, typ, field string, depth int, seen map[ssa.Value]bool) bool {
+	if v == nil || seen[v] || depth > 10 {
+		return false
+	}
+	seen[v] = true
+	switch x := v.(type) {
+	case *ssa.UnOp:
+		if fa, ok := x.X.(*ssa.FieldAddr); ok && x.Op == token.MUL {
+			return fieldAddrIs(fa, typ, field)
+		}
+		return derivesFromField(x.X, typ, field, depth+1, seen)
+	case *ssa.Field:
+		t, f, ok := FieldOf(x)
+		return ok && t == typ && f == field
+	case *ssa.BinOp:
+		return derivesFromField(x.X, typ, field, depth+1, seen) || derivesFromField(x.Y, typ, field, depth+1, seen)
+	case *ssa.Phi:
+		for _, e := range x.Edges {
+			if derivesFromField(e, typ, field, depth+1, seen) {
+				return true
+			}
+		}
+	case *ssa.Convert:
+		return derivesFromField(x.X, typ, field, depth+1, seen)
+	case *ssa.ChangeType:
+		return derivesFromField(x.X, typ, field, depth+1, seen)
+	}
+	return false
 }
